@@ -229,7 +229,7 @@ ADDED = {
            'flattening below Any. Keys with some underscores dashed, extras named self / _yatiml_extra, the hook-sharing family. Wave 6: Unions whose members are all written as a string scalar (str, Path, enum, string-like) in both orders; keyword-only parameters (not parameters). Third hunter round: two partly dashed spellings of one key (reference is order-independent).',
     'C03': ' Also: a slice of the four-class shapes in the quick tier, three five-class diamond shapes under all 120 orders, '
            'explicit class tags on enum / string-like scalars. Core tags that contradict the node (!!int on a class mapping), Unions of a class with Dict / Any, classes written as scalars by the parsed-class recipe in a Union.',
-    'C04': ' Also: underscore-prefixed parameters. Every injected tree is loaded in three spellings (as emitted, all scalars double-quoted, tagged scalars plain) against a style-aware oracle. Wave 6: underscored optional parameters next to _yatiml_extra with each key also written with dashes; classes with keyword-only parameters.',
+    'C04': ' Also: underscore-prefixed parameters. Every injected tree is loaded in three spellings (as emitted, all scalars double-quoted, tagged scalars plain) against a style-aware oracle. Wave 6: underscored optional parameters next to _yatiml_extra with each key also written with dashes; classes with keyword-only parameters. Wave 7: empty collections below Any positions.',
     'C05': ' Also: a grammar of number-like spellings with every leading digit, inverse pairs with non-str keys, paths with '
            '~ and .., empty collections vs None defaults, defaulted extras declared first, shared objects with node-replacing '
            'and restructuring sweeteners, one datetime with a sub-minute UTC offset (open known finding). Collections shared with an unsweetened attribute, the savorize-direction helpers used as sweeteners with one item under two keys, extras named self / _yatiml_extra, ints beyond the 4300-digit limit. Wave 6: enum member names that are YAML 1.2 floats / ints / dates; a sweetener that rewrites a string attribute through set_attribute(). Third hunter round: classes with __slots__ and property-backed attributes; extras named _yatiml_extra / self holding None under default-value sweetening.',
@@ -249,16 +249,16 @@ ADDED = {
            'sweeten rule for string-like classes and enums on dumping. Diamond inheritance over registered classes (two shapes; sibling order free).',
     'C11': ' Also: eight load functions (several over one class set with different result types), a mid-dump JSON failure, '
            'class sets with node-replacing and default-value sweeteners, distinct objects per thread in the dump programs, '
-           'deep snapshot of the user\'s classes.',
+           'deep snapshot of the user\'s classes. Wave 7: cross-function histories over one class registered with and without its hooked base (load, dump, JSON; both orders); every loaded value is scribbled on by the harness and every load function is called again afterwards.',
     'C12': ' Also: UTF-16 / UTF-8-BOM binary sources, byte-level documents (invalid UTF-8, CR/CRLF with errors) through '
            'BytesIO, binary file and Path, every fixed string through every dump variant and sink, pre-filled target files, '
            'a sub-process under a non-UTF-8 locale. A text stream over undecodable bytes at three positions (position independence of the error). Wave 6: sinks that already hold text (StringIO / text file written to before, append mode), text streams in latin-1, cp1251, gb18030, UTF-16.',
     'C13': ' Also: single-class models, both spellings of a key, merge keys; dicts are compared unordered under key '
-           'permutation. Wave 6: one character beyond the BMP spelt raw / as a JSON surrogate pair / as \\U escape at every kind of string position, also 4 and 8 kB into the text; tags naming the additionally registered classes at every node. Third hunter round: two partly dashed spellings of one key in both orders (mutation twomixed).',
+           'permutation. Wave 6: one character beyond the BMP spelt raw / as a JSON surrogate pair / as \\U escape at every kind of string position, also 4 and 8 kB into the text; tags naming the additionally registered classes at every node. Third hunter round: two partly dashed spellings of one key in both orders (mutation twomixed). Wave 7: literal (quick) and folded (thorough) block-scalar renderings; quick tier uses five of the eight renderings.',
     'C14': ' Also: initial nodes composed from text (marks, a value shared by two keys, kind/tag mismatches), overrides of '
            'non-None defaults incl. by None, a defaulted _yatiml_extra before the defaulted parameters, empty collections '
            'against defaults of the same and the other kind, ints beyond the str() digit limit through set_value and '
-           'set_attribute. Collections carrying a scalar tag in the default-value matrix. Wave 6: every sequence of <= 3/4 remove_attributes_with_default_values() calls over three classes sharing one __init__ with every combination of own _yatiml_defaults tables (100 families), last call on all 16 value pairs.',
+           'set_attribute. Collections carrying a scalar tag in the default-value matrix. Wave 6: every sequence of <= 3/4 remove_attributes_with_default_values() calls over three classes sharing one __init__ with every combination of own _yatiml_defaults tables (100 families), last call on all 16 value pairs. Wave 7: second key profile {a_b, a-b, c} with the two key-respelling helpers as operations of the accessor BFS.',
     'C15': ' Also: the full form (item already has its key attribute) is inside the domain of map_attribute_to_index. Every in-domain transform also on node graphs with shared objects (the collection, its first item, one item under two keys). Wave 6: collections of length <= 3 (quick) / 4 (thorough); every in-domain result is the start state of every second transform (depth-2 chains), compared with the transform applied to a freshly built node of the documented shape. Third hunter round: a call naming attribute N behaves on a node with a non-string key spelt N as with that key spelt differently; after a conversion on shared nodes the keys of the result are renamed and the other references compared again.',
     'C16': ' Also: near-miss keys (dashed / underscored / case), nodes whose kind and core tag disagree. Non-string keys spelt like the attribute names; mappings with the attribute written twice (exception type and purity only). Wave 6: typed require_attribute over the whole D(T) of 32 types (valid trees, all single-point mutations with every tag, all trees <= 3/4 nodes); classes with a recogniser of their own as attribute types and as tags on attribute values.',
     'C17': ' Also: near-miss enum members, numeric and duplicated added keys, Union-with-collection and Union-of-classes '
